@@ -52,6 +52,7 @@ static void run_case(Ctx &c, uint64_t i, const GraphSpec &s, bool scramble, uint
             std::vector<std::string> viols; std::vector<std::string> tags;
             OracleResult orc; if (rank == 0) orc = horton_oracle(s);
             for (int entry = elo; entry <= ehi; entry++) {
+                if (entry >= 3 && s.family == "long_ring_three_lobes") continue;   // the isometric variants need minutes on a 2 400-vertex ring even sequentially
                 std::list<std::list<E>> cycles; W ret = 0; std::string exc;
                 mark(i, entry, "ENTER");
                 try { ret = run_mpi<W>(entry, g, w, cycles, world); } catch (std::exception &e) { exc = e.what(); } catch (...) { exc = "unknown"; }
@@ -84,7 +85,7 @@ static void run_case(Ctx &c, uint64_t i, const GraphSpec &s, bool scramble, uint
                 tags.push_back("P=" + std::to_string(P)); tags.push_back(std::is_same<W, int>::value ? "wtype:int" : "wtype:double"); tags.push_back(std::string("fam:") + s.family.substr(0, s.family.find('+')));
                 tags.push_back(scramble ? "layout:scrambled" : "layout:natural"); if (ds.size() >= 2) tags.push_back("ranks_hold_different_layouts");
                 if (dim == 0) tags.push_back("forest_or_empty"); if (dim >= 2 && dim < s.n) tags.push_back("signed:hidden_edge_branch_possible"); if (dim >= s.n && dim >= 2) tags.push_back("signed:dense_branch_possible");
-                if (P > s.n) tags.push_back("P>n"); if (P > dim && dim > 0) tags.push_back("P>csd");
+                if (s.n >= 2000) tags.push_back("cycles_of_700+_edges"); if (P > s.n) tags.push_back("P>n"); if (P > dim && dim > 0) tags.push_back("P>csd");
                 bool nt = dim >= 2 && P >= 2 && ds.size() >= 2;
                 J j; j.str("h", hb).num("nt", nt ? 1 : 0).raw("tags", jarr(tags, true));
                 if (!viols.empty()) j.raw("viol", jarr(viols, false));
@@ -115,7 +116,15 @@ int main(int argc, char **argv) {
         else {
             use_int = r.chance(0.25);   // the weight value type is a template parameter (reductions, sentinels): int as well as double
             GenOpts o; o.max_n = max_n; o.tie_bias = 0.55; o.allow_degenerate = true; o.int_only = use_int;
-            if (r.chance(0.2)) { // dense: the all-vertices branch of the signed variant (|S_k| >= n) runs, with n not divisible by most rank counts
+            if (a.geti("long_cycles", 1) && r.chance(0.03)) {
+                // a ring of 3L unit edges cut into three lobes of L+1 edges by a triangle of chords: the basis cycles have 700-900 edges, so
+                // whatever the ranks exchange about a cycle no longer fits a small message (MPI eager limit: 4 KiB on shared memory here)
+                int L = (int) r.range(700, 900); int n = 3 * L; s.n = n; use_int = false;
+                for (int q = 0; q < n; q++) s.edges.push_back({q, (q + 1) % n, 1});
+                s.edges.push_back({0, L, 2}); s.edges.push_back({L, 2 * L, 2}); s.edges.push_back({0, 2 * L, 2});
+                r.shuffle(s.edges); s.family = "long_ring_three_lobes"; s.wshift = 0; s.wmode = 0; s.tie_rich = false;
+            }
+            else if (r.chance(0.2)) { // dense: the all-vertices branch of the signed variant (|S_k| >= n) runs, with n not divisible by most rank counts
                 Topo t; int n = (int) r.range(6, std::min(max_n, 13)); topo_er(r, t, n, 0.7 + 0.3 * r.real()); dedup(t);
                 s.n = n; for (auto &e : t) s.edges.push_back({e.first, e.second, 1}); r.shuffle(s.edges); s.family = "er_dense"; assign_weights(r, s, o, false); }
             else if (r.chance(0.35)) { Topo t; int n = (int) r.range(4, max_n); topo_er(r, t, n, std::min(1.0, (1.5 + 5 * r.real()) / n)); if (r.chance(0.7)) topo_tree(r, t, n); dedup(t);
